@@ -37,4 +37,6 @@ def sig(r):
     out = {k: (v if isinstance(v, (int, str, bool)) else str(v)) for k, v in s.items()}
     out["lkind"] = r["lkind"]
     out["dim"] = r["dim"]
+    if r.get("exc"):
+        out["exc_type"] = r["exc"].split(":")[0]
     return out
